@@ -62,6 +62,7 @@ pub fn check_cmd(args: &[String]) -> i32 {
         "C14" => c14(&a),
         "C11" => c11(&a),
         "C16" => c16(&a),
+        "C17" => c17(&a),
         "C12" => c12(&a),
         "C13" => c13(&a),
         "C15" => c15(&a),
@@ -1254,6 +1255,43 @@ fn c16(a: &Args) -> Report {
             "validation oracle: an independent parser of the blob format (magic, header CRC, data CRC, tiling); metadata content and the blob header's version/flags carry no checksum and are excluded from the accept/reject comparison (counted)".into(),
             "with skipping, records behind a damaged record are required only when the damage leaves the record's length fields intact".into(),
         ],
+        wall_s: 0.0,
+        violations,
+        known: vec![],
+        machinery_errors: machinery,
+    }
+}
+
+fn c17(a: &Args) -> Report {
+    let (st, viols) = crate::engines::compat::run(a.threads);
+    let mut violations = Vec::new();
+    let mut machinery = Vec::new();
+    for (case, fs) in &viols {
+        if fs.iter().any(|f| f.detail.contains("machinery")) {
+            machinery.push(format!("{case:?}: {fs:?}"));
+            continue;
+        }
+        violations.push((json!({"engine": "compat", "case": case, "findings": fs}), format!("[corpus {}] {:?} :: {}: {}", case.dir, case.variant, fs[0].kind, fs[0].detail)));
+    }
+    violations.truncate(10);
+    Report {
+        property: "C17".into(),
+        tier: a.tier.clone(),
+        seed: a.seed,
+        level: "exploration".into(),
+        coverage: json!({
+            "evaluations": st.cases,
+            "distinct_nontrivial": st.cases,
+            "rule": "committed corpus written by the pinned tree (sha in corpus/data/MANIFEST.json): for every directory, every subset of its index files removed x eager / lazy init, all recorded answers (read, contains, read_all[_with_deletion_marker], read_with x3, check_filters for every key incl. absent ones; counts) compared; each directory opened with every other key size; blob version field set to {0,2,3,255,u32::MAX}; index version byte set to every value 0..255; every case is distinct",
+            "samples": st.samples,
+            "exhaustive": true,
+            "corpus_sha": st.corpus_sha,
+            "directories": st.dirs,
+            "subset_cases": st.subset_cases,
+            "mismatch_cases": st.mismatch_cases,
+            "keys_compared": st.keys_compared,
+        }),
+        assumptions: vec!["the claim is limited to the committed corpus (5 directories: key sizes 4, 8, 33, 1000; bloom off / 70 / 512 / 1024 bits / default formula; markers, metadata, timestamp ties, a 5 KiB value, a three-level index)".into()],
         wall_s: 0.0,
         violations,
         known: vec![],
